@@ -126,6 +126,13 @@ def run_shard(ctx, shard):
                     m = max(len(r) for r in rows)
                     cut = rng.randint(1, m)
                     rows = [r[:cut] for r in rows] if rng.random() < 0.5 else [r[cut:] for r in rows]
+        elif q < 0.78:
+            # zero-width characters (combining marks, variation selector, ZWJ, ZWSP) occupy a column of their own
+            w = rng.randint(2, 12)
+            h = rng.randint(1, 3)
+            zw = '\u0301\u200b\ufe0f\u200d\u0300'
+            rows = [''.join(rng.choice(zw) if rng.random() < 0.25 else rng.choice('ae-|>+* ') for _ in range(w)) for _ in range(h)]
+            ctx.tag('with_zero_width')
         elif q < 0.85:
             kind, rows = gen.diagram(rng, circles, allow_quotes=True, allow_braces=True)
         elif q < 0.9:
